@@ -11,7 +11,7 @@ import boards_common as bc
 
 RULE = ("boards: every board with <= 3 tiles (quick) / <= 4 tiles (thorough) over arrows {0,1,2,3} x loose {0,1} x "
         "rewards {0,3}, break probabilities cycling through {0.1,0.5,0.29}^3; random boards from the real gen_rnd_board "
-        "up to 3x3 / 5x5 (force-down on/off) with probabilities also drawn from (0,1); larger boards (8x8, 1x40, 40x1; "
+        "up to 3x3 / 5x5 (force-down on/off) with probabilities also drawn from (0,1); larger boards (8x8, 1x40, 40x1, 9x10, 1x90 and one seed-drawn board of 48..168 tiles; "
         "thorough also 20x20, 12x7) through the implementation and the Python bisimulation check only; command-line "
         "and manual-entry runs. Each input yields three games; each is compared (a) inside Coq with the model, "
         "(b) in Python with the independently built rule game. non-trivial = board with >= 2 tiles; distinct by "
